@@ -749,9 +749,20 @@ class Macro(Element):
                 parname = item.nodeName
                 break
 
+        # Character substitutions are for text, not for mathematics
+        charsubs = self.ownerDocument.charsubs
+        node = self
+        while node is not None:
+            mathMode = getattr(node, 'mathMode', None)
+            if mathMode is not None:
+                if mathMode:
+                    charsubs = []
+                break
+            node = node.parentNode
+
         # No paragraphs, and we aren't forcing paragraphs...
         if parname is None and not force:
-            self.normalize(self.ownerDocument.charsubs)
+            self.normalize(charsubs)
             return
 
         if parname is None:
@@ -783,7 +794,7 @@ class Macro(Element):
         # Insert nodes into self
         for i, item in enumerate(newnodes):
             if item.level == Node.PAR_LEVEL:
-                item.normalize(self.ownerDocument.charsubs)
+                item.normalize(charsubs)
             self.insert(i, item)
 
         # Filter out any empty paragraphs
